@@ -247,7 +247,20 @@ class Impl:
                 elif n == "SetObj":
                     M.objective = {self.rx[k]: float(F(c)) for k, c in a[0]}
                 elif n == "SetObjCoef":
-                    self.rx[a[0]].objective_coefficient = float(F(a[1]))
+                    r = self.rx[a[0]]
+                    others = [x for x in M.reactions if x is not r] if r.model is M else []
+                    if len(a) > 2 and a[2] == "additive" and others:
+                        # the same edit through the documented additive form, right after another coefficient was edited
+                        # (no read in between): weight of `j` goes up by one, then ONE additive expression takes that
+                        # back and moves the weight of `r` to its new value
+                        from cobra.util.solver import set_objective
+                        j = others[0]
+                        old_r, old_j = r.objective_coefficient, j.objective_coefficient
+                        j.objective_coefficient = old_j + 1.0
+                        set_objective(M, (float(F(a[1])) - old_r) * r.flux_expression - 1.0 * j.flux_expression,
+                                      additive=True)
+                    else:
+                        r.objective_coefficient = float(F(a[1]))
                 elif n == "SetDir":
                     M.objective_direction = a[0]
                 elif n == "Imul":
@@ -543,6 +556,8 @@ def gen_history(rng, length, solver="glpk", ctx_p=0.12, max_depth=3, fail_p=0.15
                 c = list(im.rx)
             if c:
                 o = ["SetObjCoef", rng.choice(c), rng.choice(["1", "0", "-1", "2", "1/2", "1/33554432", "-1/33554432"])]
+                if rng.random() < 0.25:
+                    o.append("additive")
         elif n == "SetDir":
             o = ["SetDir", rng.choice(["max", "min"])]
         elif n == "Imul":
